@@ -40,6 +40,16 @@ struct CaseSched {
     m: Mutex<Vec<TState>>,
     cv: Condvar,
 }
+/// Hook points at which a parked thread is about to take the write lock.  `begin` (every call
+/// of the repaired code locks first) is there from the start; other points are learnt the
+/// first time a thread granted a step from there fails to arrive while another thread holds
+/// the lock (code that locks later in a call).  A thread parked at such a point is not granted
+/// a step while the lock is held — the same enabledness rule as the model's `lock` step.
+static LOCKING_POINTS: Mutex<Vec<String>> = Mutex::new(Vec::new());
+fn is_locking_point(p: &str) -> bool {
+    p == "begin" || LOCKING_POINTS.lock().unwrap().iter().any(|x| x == p)
+}
+
 thread_local! {
     static CTX: RefCell<Option<(Arc<CaseSched>, usize)>> = RefCell::new(None);
 }
@@ -62,6 +72,34 @@ fn hook(name: &'static str) {
     }
 }
 
+/// what a thread calls on the manager: a `persist_*` operation or `recover` of the tenant
+#[derive(Clone, Debug, PartialEq)]
+enum Call {
+    Op(Op),
+    Recover,
+}
+impl Call {
+    fn render(&self) -> String {
+        match self { Call::Op(o) => o.render(), Call::Recover => "rc".into() }
+    }
+    fn parse(s: &str) -> Option<Call> {
+        if s == "rc" { Some(Call::Recover) } else { Op::parse(s).map(Call::Op) }
+    }
+}
+fn render_calls(p: &[Call]) -> String {
+    if p.is_empty() { "-".into() } else { p.iter().map(|c| c.render()).collect::<Vec<_>>().join(";") }
+}
+fn parse_calls(s: &str) -> Option<Vec<Call>> {
+    if s == "-" { return Some(vec![]); }
+    s.split(';').map(Call::parse).collect()
+}
+fn call(pm: &PersistenceManager, tenant: &str, c: &Call) -> String {
+    match c {
+        Call::Op(o) => apply(pm, tenant, o),
+        Call::Recover => match pm.recover(tenant) { Ok(_) => "ok".into(), Err(e) => err_name(&e) },
+    }
+}
+
 struct Outcome {
     trace: Vec<String>,
     results: Vec<Vec<String>>,
@@ -69,7 +107,7 @@ struct Outcome {
 }
 
 /// run the programs on real threads under `sched`, then drain (lowest enabled thread first)
-fn run_threads(pm: &Arc<PersistenceManager>, tenant: &str, progs: &[Vec<Op>], sched: &[usize]) -> Outcome {
+fn run_threads(pm: &Arc<PersistenceManager>, tenant: &str, progs: &[Vec<Call>], sched: &[usize]) -> Outcome {
     let n = progs.len();
     let cs = Arc::new(CaseSched { m: Mutex::new((0..n).map(|_| TState::default()).collect()), cv: Condvar::new() });
     let mut handles = vec![];
@@ -79,7 +117,7 @@ fn run_threads(pm: &Arc<PersistenceManager>, tenant: &str, progs: &[Vec<Op>], sc
             CTX.with(|c| *c.borrow_mut() = Some((cs.clone(), tid)));
             for op in &prog {
                 park(&cs, tid, "begin");
-                let r = apply(&pm, &tenant, op);
+                let r = call(&pm, &tenant, op);
                 let mut g = cs.m.lock().unwrap();
                 g[tid].returned = Some(r.clone());
                 g[tid].results.push(r);
@@ -103,6 +141,14 @@ fn run_threads(pm: &Arc<PersistenceManager>, tenant: &str, progs: &[Vec<Op>], sc
             }
         }
     }
+    // `inflight[t]`: thread t was granted a step that has not reached a hook point yet because it
+    // is waiting for the write lock.  This cannot happen with code whose calls take the lock
+    // first (a thread past `begin` is then always the holder); it does happen with code that
+    // locks later (e.g. a `recover` that scans before locking).  Such a grant is given a short
+    // time to arrive; if it does not, the entry is recorded as `t.blocked` and the thread is
+    // left to arrive when the lock is released.
+    let inflight: Vec<std::cell::Cell<bool>> = (0..n).map(|_| std::cell::Cell::new(false)).collect();
+    let deviant = std::cell::Cell::new(false);
     let step = |t: usize, trace: &mut Vec<String>, holder: &mut Option<usize>| -> Option<String> {
         // returns Some(reason) when the granted thread never reached its next point
         let mut g = cs.m.lock().unwrap();
@@ -110,25 +156,43 @@ fn run_threads(pm: &Arc<PersistenceManager>, tenant: &str, progs: &[Vec<Op>], sc
             trace.push(format!("{}.x", t));
             return None;
         }
-        if g[t].at.as_deref() == Some("begin") && holder.is_some() {
-            trace.push(format!("{}.x", t));
-            return None;
+        let from = g[t].at.clone().unwrap_or_default();
+        if !inflight[t].get() {
+            if holder.is_some() && *holder != Some(t) && is_locking_point(&from) {
+                trace.push(format!("{}.x", t));
+                return None;
+            }
+            if holder.is_some() && *holder != Some(t) {
+                deviant.set(true); // a thread inside a call that is not the lock holder
+            }
+            g[t].granted = true;
+            cs.cv.notify_all();
         }
-        g[t].granted = true;
-        cs.cv.notify_all();
         // wait for the thread to park again or finish
+        let short = deviant.get() || inflight.iter().any(|x| x.get());
+        let limit = if short { 1 } else { 120 };
         let mut waited = 0;
         while g[t].granted || !(g[t].finished || g[t].at.is_some()) {
-            let (g2, to) = cs.cv.wait_timeout(g, Duration::from_millis(500)).unwrap();
+            let (g2, to) = cs.cv.wait_timeout(g, Duration::from_millis(if short { 150 } else { 500 })).unwrap();
             g = g2;
             if to.timed_out() {
                 waited += 1;
-                if waited > 120 {
+                if waited >= limit {
+                    if short {
+                        if !inflight[t].get() && !from.is_empty() {
+                            let mut lp = LOCKING_POINTS.lock().unwrap();
+                            if !lp.contains(&from) { lp.push(from.clone()); }
+                        }
+                        inflight[t].set(true);
+                        trace.push(format!("{}.blocked", t));
+                        return None;
+                    }
                     trace.push(format!("{}.stuck", t));
                     return Some(format!("thread {} did not reach its next hook point within 60 s", t));
                 }
             }
         }
+        inflight[t].set(false);
         if let Some(r) = g[t].returned.take() {
             trace.push(format!("{}.ret:{}", t, r));
             if *holder == Some(t) {
@@ -151,12 +215,13 @@ fn run_threads(pm: &Arc<PersistenceManager>, tenant: &str, progs: &[Vec<Op>], sc
     while stuck.is_none() {
         let pick = {
             let g = cs.m.lock().unwrap();
-            (0..n).find(|&t| !g[t].finished && !(g[t].at.as_deref() == Some("begin") && holder.is_some()))
+            (0..n).find(|&t| !g[t].finished && (inflight[t].get() || !(holder.is_some() && holder != Some(t) && is_locking_point(g[t].at.as_deref().unwrap_or("")))))
         };
         match pick {
             Some(t) => { stuck = step(t, &mut trace, &mut holder); }
             None => break,
         }
+        if trace.len() > 4000 { stuck = Some("drain did not terminate".into()); }
     }
     if stuck.is_some() {
         // let everything run to the end so the threads can be joined
@@ -183,11 +248,11 @@ fn run_threads(pm: &Arc<PersistenceManager>, tenant: &str, progs: &[Vec<Op>], sc
 #[derive(Clone, Debug)]
 struct Case {
     cfg: Cfg,
-    progs: Vec<Vec<Op>>,
+    progs: Vec<Vec<Call>>,
     sched: Vec<usize>,
 }
-fn render_progs(p: &[Vec<Op>]) -> String {
-    p.iter().map(|x| render_ops(x)).collect::<Vec<_>>().join("/")
+fn render_progs(p: &[Vec<Call>]) -> String {
+    p.iter().map(|x| render_calls(x)).collect::<Vec<_>>().join("/")
 }
 fn render_sched(s: &[usize]) -> String {
     if s.is_empty() { "-".into() } else { s.iter().map(|x| x.to_string()).collect::<Vec<_>>().join(",") }
@@ -196,7 +261,7 @@ fn parse_case(line: &str) -> Option<Case> {
     // `case <cfg> <progs> <sched>`
     let t: Vec<&str> = line.split_whitespace().collect();
     if t.len() != 4 || t[0] != "case" { return None; }
-    let progs: Option<Vec<Vec<Op>>> = t[2].split('/').map(parse_ops).collect();
+    let progs: Option<Vec<Vec<Call>>> = t[2].split('/').map(parse_calls).collect();
     let sched: Option<Vec<usize>> = if t[3] == "-" { Some(vec![]) } else { t[3].split(',').map(|x| x.parse().ok()).collect() };
     Some(Case { cfg: Cfg::parse(t[1])?, progs: progs?, sched: sched? })
 }
@@ -218,6 +283,27 @@ fn interleavings(counts: &[usize], width: usize) -> Vec<Vec<usize>> {
     out.into_iter().map(|s| s.into_iter().flat_map(|t| std::iter::repeat(t).take(width)).collect()).collect()
 }
 
+/// all interleavings of the threads' unit sequences; `units[t]` lists the widths (number of
+/// schedule entries) of thread t's consecutive units
+fn interleave_units(units: &[Vec<usize>]) -> Vec<Vec<usize>> {
+    fn go(units: &[Vec<usize>], pos: &mut Vec<usize>, cur: &mut Vec<usize>, out: &mut Vec<Vec<usize>>) {
+        if (0..units.len()).all(|t| pos[t] == units[t].len()) { out.push(cur.clone()); return; }
+        for t in 0..units.len() {
+            if pos[t] < units[t].len() {
+                let w = units[t][pos[t]];
+                pos[t] += 1;
+                for _ in 0..w { cur.push(t); }
+                go(units, pos, cur, out);
+                for _ in 0..w { cur.pop(); }
+                pos[t] -= 1;
+            }
+        }
+    }
+    let mut out = vec![];
+    go(units, &mut vec![0; units.len()], &mut vec![], &mut out);
+    out
+}
+
 fn quota_cfg(n: Option<usize>, e: Option<usize>) -> Cfg {
     Cfg { registered: true, enabled: true, max_nodes: n, max_edges: e }
 }
@@ -225,23 +311,24 @@ fn quota_cfg(n: Option<usize>, e: Option<usize>) -> Cfg {
 fn gen_case(rng: &mut Rng) -> Case {
     let nthreads = 2 + rng.usize(2);
     let max_id = 1 + rng.below(3);
-    let progs: Vec<Vec<Op>> = (0..nthreads)
+    let progs: Vec<Vec<Call>> = (0..nthreads)
         .map(|_| {
             (0..1 + rng.usize(3))
                 .map(|_| {
                     let id = 1 + rng.below(max_id);
-                    match rng.below(10) {
-                        0..=4 => Op::CreateNode { id, labels: vec![], props: vec![] },
-                        5 => Op::CreateEdge { id, src: 1, tgt: 2, ty: 1, props: vec![] },
-                        6..=7 => Op::DeleteNode(id),
-                        8 => Op::DeleteEdge(id),
-                        _ => Op::UpdateNode(id, vec![(0, 1)]),
+                    match rng.below(12) {
+                        0..=4 => Call::Op(Op::CreateNode { id, labels: vec![], props: vec![] }),
+                        5 => Call::Op(Op::CreateEdge { id, src: 1, tgt: 2, ty: 1, props: vec![] }),
+                        6..=7 => Call::Op(Op::DeleteNode(id)),
+                        8 => Call::Op(Op::DeleteEdge(id)),
+                        9 => Call::Op(Op::UpdateNode(id, vec![(0, 1)])),
+                        _ => Call::Recover,
                     }
                 })
                 .collect()
         })
         .collect();
-    let len = rng.usize(30);
+    let len = rng.usize(40);
     let sched = (0..len).map(|_| rng.usize(nthreads)).collect();
     Case { cfg: quota_cfg(Some(1 + rng.usize(3)), Some(1 + rng.usize(2))), progs, sched }
 }
@@ -292,7 +379,8 @@ fn main() {
     let n_corpus = cases.len();
     rep.count_n("corpus_cases", n_corpus as u64);
     if args.replay.is_none() {
-        let mk = |id: u64| vec![Op::CreateNode { id, labels: vec![], props: vec![] }];
+        let cn = |id: u64| Call::Op(Op::CreateNode { id, labels: vec![], props: vec![] });
+        let mk = |id: u64| vec![cn(id)];
         // (a) 2 threads x 1 creation, quota 1-2: every interleaving of 6 + 6 micro-steps
         let two = interleavings(&[6, 6], 1);
         for q in 1..=2 {
@@ -310,12 +398,66 @@ fn main() {
             }
         }
         rep.count_n("exhaustive:3x1", 2 * three.len() as u64);
+        // (d)-(h) `recover` as a thread program, interleaved with writers at every hook point.
+        //   Thread 0 is a set-up thread that persists `pre` nodes before the others start (its
+        //   schedule entries come first); quota q in 1..=2, pre in 0..=q.
+        let with_setup = |pre: usize, progs: Vec<Vec<Call>>, sched: &[usize]| -> (Vec<Vec<Call>>, Vec<usize>) {
+            let mut p = vec![(1..=pre as u64).map(|i| cn(i)).collect::<Vec<_>>()];
+            p.extend(progs);
+            let mut sc = vec![0usize; 6 * pre];
+            sc.extend(sched.iter().map(|t| t + 1));
+            (p, sc)
+        };
+        let combos: Vec<(usize, usize)> = vec![(1, 0), (1, 1), (2, 0), (2, 1), (2, 2)];
+        let mut n_rec = 0u64;
+        // (d) recover + 1 creation, micro-step granularity (4 + 6 entries)
+        let rw = interleave_units(&[vec![1; 4], vec![1; 6]]);
+        for &(q, pre) in &combos {
+            for s in &rw {
+                let (progs, sched) = with_setup(pre, vec![vec![Call::Recover], mk(7)], s);
+                cases.push(Case { cfg: quota_cfg(Some(q), None), progs, sched });
+                n_rec += 1;
+            }
+        }
+        // (e) recover + 1 deletion of a persisted node, micro-step granularity (4 + 5 entries)
+        let rd = interleave_units(&[vec![1; 4], vec![1; 5]]);
+        for &(q, pre) in combos.iter().filter(|c| c.1 >= 1) {
+            for s in &rd {
+                let (progs, sched) = with_setup(pre, vec![vec![Call::Recover], vec![Call::Op(Op::DeleteNode(1))]], s);
+                cases.push(Case { cfg: quota_cfg(Some(q), None), progs, sched });
+                n_rec += 1;
+            }
+        }
+        // (f) recover + 2 creations: recover as [lock] [scan] [count,return], each creation as
+        //     three 2-step segments
+        let rww = interleave_units(&[vec![1, 1, 2], vec![2; 3], vec![2; 3]]);
+        for &(q, pre) in &[(1usize, 0usize), (2, 0), (2, 1)] {
+            for s in &rww {
+                let (progs, sched) = with_setup(pre, vec![vec![Call::Recover], mk(7), mk(8)], s);
+                cases.push(Case { cfg: quota_cfg(Some(q), None), progs, sched });
+                n_rec += 1;
+            }
+        }
+        // (g) [create; recover] and (h) [recover; create] against a creator
+        let cr = interleave_units(&[vec![2, 2, 2, 1, 1, 1, 1], vec![2; 3]]);
+        let rc = interleave_units(&[vec![1, 1, 1, 1, 2, 2, 2], vec![2; 3]]);
+        for &(q, pre) in &combos {
+            for s in &cr {
+                let (progs, sched) = with_setup(pre, vec![vec![cn(7), Call::Recover], mk(8)], s);
+                cases.push(Case { cfg: quota_cfg(Some(q), None), progs, sched });
+                n_rec += 1;
+            }
+            for s in &rc {
+                let (progs, sched) = with_setup(pre, vec![vec![Call::Recover, cn(7)], mk(8)], s);
+                cases.push(Case { cfg: quota_cfg(Some(q), None), progs, sched });
+                n_rec += 1;
+            }
+        }
+        rep.count_n("exhaustive:recover", n_rec);
         rep.exhaustive = true;
         rep.exhaustive_note = format!(
-            "all {} interleavings of 2 threads x 1 creation at micro-step granularity (6+6 schedule entries) and all {} interleavings of \
-             3 threads x 1 creation at the granularity of three 2-step segments per thread, each at quota 1 and 2; plus PRNG cases \
-             (2-3 threads, 1-3 calls each incl. re-puts, deletes, updates, edges; random schedules), not exhaustive",
-            two.len(), three.len()
+            "all {} interleavings of 2 threads x 1 creation at micro-step granularity (6+6 schedule entries) and all {} interleavings of              3 threads x 1 creation at the granularity of three 2-step segments per thread, each at quota 1 and 2; with `recover` as a              thread program, at quota 1-2 with 0..quota pre-persisted nodes: all {} interleavings of recover + 1 creation and all {} of              recover + 1 deletion at micro-step granularity, all {} of recover ([lock][scan][count,return]) + 2 creations (three 2-step              segments each), all {} of [create; recover] and all {} of [recover; create] against a creator; plus PRNG cases (2-3 threads,              1-3 calls each incl. recover, re-puts, deletes, updates, edges; random schedules), not exhaustive",
+            two.len(), three.len(), rw.len(), rd.len(), rww.len(), cr.len(), rc.len()
         );
         // (c) random programs and schedules
         let mut rng = Rng::new(args.seed);
@@ -327,7 +469,7 @@ fn main() {
     struct Obs { trace: Vec<String>, line: Result<String, String>, stuck: Option<String> }
     let next = AtomicUsize::new(0);
     let out: Mutex<Vec<(usize, Obs)>> = Mutex::new(vec![]);
-    let n_runners = 4usize;
+    let n_runners = 6usize;
     std::thread::scope(|sc| {
         for w in 0..n_runners {
             let (next, out, cases, workp) = (&next, &out, &cases, work.path());
@@ -349,18 +491,24 @@ fn main() {
                         n.sort(); e.sort();
                         let u = |pm: &PersistenceManager| pm.tenants().get_usage(&tenant).map(|u| format!("{}.{}", u.node_count, u.edge_count)).map_err(|e| e.to_string());
                         let u0 = u(&pm)?;
+                        // a creation attempted now that everybody has returned
+                        let probe = apply(&pm, &tenant, &Op::CreateNode { id: 99, labels: vec![], props: vec![] });
+                        let mut np: Vec<u64> = pm.storage().scan_nodes(&tenant).map_err(|e| e.to_string())?.iter().map(|x| x.id.as_u64()).collect();
+                        np.sort();
+                        let up = u(&pm)?;
                         pm.recover(&tenant).map_err(|e| err_name(&e))?;
                         let u1 = u(&pm)?;
                         pm.recover(&tenant).map_err(|e| err_name(&e))?;
                         let u2 = u(&pm)?;
                         let res = o.results.iter().map(|r| if r.is_empty() { "-".to_string() } else { r.join(",") }).collect::<Vec<_>>().join("/");
-                        Ok(format!("{}|{}|{}|{}|{}|{}", res, ids(n), ids(e), u0, u1, u2))
+                        Ok(format!("{}|{}|{}|{}|{}|{}|{}|{}|{}", res, ids(n), ids(e), u0, probe, ids(np), up, u1, u2))
                     })();
                     // leave nothing behind for the next tenant's scans
+                    let _ = pm.storage().delete_node(&tenant, 99);
                     for op in c.progs.iter().flatten() {
                         match op {
-                            Op::CreateNode { id, .. } => { let _ = pm.storage().delete_node(&tenant, *id); }
-                            Op::CreateEdge { id, .. } => { let _ = pm.storage().delete_edge(&tenant, *id); }
+                            Call::Op(Op::CreateNode { id, .. }) => { let _ = pm.storage().delete_node(&tenant, *id); }
+                            Call::Op(Op::CreateEdge { id, .. }) => { let _ = pm.storage().delete_edge(&tenant, *id); }
                             _ => {}
                         }
                     }
@@ -420,12 +568,19 @@ fn main() {
                 // structural signatures of the failing observation
                 let f: Vec<&str> = l.split('|').collect();
                 let cnt = |x: &str| if x == "-" { 0 } else { x.split(',').count() };
-                let (nn, ne) = (cnt(f[1]), cnt(f[2]));
+                let (nn, ne, np) = (cnt(f[1]), cnt(f[2]), cnt(f[5]));
                 let exact = format!("{}.{}", nn, ne);
+                let exact_p = format!("{}.{}", np, ne);
+                let has_recover = c.progs.iter().flatten().any(|x| *x == Call::Recover);
                 let mut sigs = vec![];
-                if c.cfg.max_nodes.map(|q| nn > q).unwrap_or(false) || c.cfg.max_edges.map(|q| ne > q).unwrap_or(false) { sigs.push("quota-overrun"); }
-                if f[3] != exact { sigs.push("usage-skew"); }
-                if f[3] == exact && (f[4] != exact || f[5] != exact) { sigs.push("recover-adds"); }
+                let over = |n: usize, e: usize| c.cfg.max_nodes.map(|q| n > q).unwrap_or(false) || c.cfg.max_edges.map(|q| e > q).unwrap_or(false);
+                if over(nn, ne) { sigs.push("quota-overrun"); }
+                if f[3] != exact { sigs.push(if has_recover { "usage-skew-with-concurrent-recover" } else { "usage-skew" }); }
+                if f[3] == exact && !over(nn, ne) {
+                    let room = c.cfg.max_nodes.map(|q| nn < q).unwrap_or(true);
+                    if (f[4] == "ok") != room || over(np, ne) || f[6] != exact_p { sigs.push("probe-creation"); }
+                    else if f[7] != exact_p || f[8] != exact_p { sigs.push("recover-adds"); }
+                }
                 if s == "viol:refused-left-something" { sigs.push("refused-left-something"); }
                 if sigs.is_empty() { sigs.push(if s.starts_with("viol") { "quota-spec" } else { "driver-rejected" }); }
                 for sig in sigs {
